@@ -88,15 +88,15 @@ Proof. vm_compute. lia. Qed.
 Definition w_state : nstate := [[(0, N 0 1); (1, N 1 2)]; [(1, N (1#2) 1); (2, N 2 (1#2))]; [(0, N (-1) 4)]].
 Definition w_new : nmf := [(1, N (1#4) (1#2)); (2, N 1 (1#4))].
 Theorem per_variable_delta_one_refuted :
-  exists (st : nstate) i dl new v nw,
-    i < length st /\ nget v new = Some nw /\ In v (keys N2 (own N2 i st))
+  exists (st : nstate) i dl v nw,
+    i < length st /\ In v (keys N2 (own N2 i st)) /\ is_pervar dl = true
     /\ delta_at dl v = Q2Qc 1
     /\ n_valid (full_cand N2 n_add n_opp nw (nget v (n_cavity i st))) = true
-    /\ nget v (n_global (nstep i dl new st)) <> Some nw.
+    /\ cand_valid N2 n_valid (cand_v N2 n_add n_opp n_scale false dl (n_cavity i st) (own N2 i st) v nw) = false
+    /\ cand_valid N2 n_valid (cand_v N2 n_add n_opp n_scale true dl (n_cavity i st) (own N2 i st) v nw) = true.
 Proof.
-  exists w_state, 1, (dynamic_delta N2 (Q2Qc 1) w_state), w_new, 2, (N 1 (1#4)).
+  exists w_state, 1, (dynamic_delta N2 (Q2Qc 1) w_state), 2, (N 1 (1#4)).
   repeat split; try (vm_compute; auto; lia).
-  apply differs_neq. vm_compute. reflexivity.
 Qed.
 (* with a scalar delta = 1 the same update is exact (non-vacuity of update_exact) *)
 Example update_exact_nonvacuous :
